@@ -23,11 +23,12 @@ static int pos;
 
 int main(int argc, char **argv) {
   int out = 1, in = 0, wait = 0, nofds = 0, code = 0;
-  const char *marker = 0;
+  const char *marker = 0, *outfile = 0;
   for (int i = 1; i < argc; i++) {
     if (!strncmp(argv[i], "--out=", 6)) out = atoi(argv[i] + 6);
     else if (!strncmp(argv[i], "--in=", 5)) in = atoi(argv[i] + 5);
     else if (!strncmp(argv[i], "--marker=", 9)) marker = argv[i] + 9;
+    else if (!strncmp(argv[i], "--outfile=", 10)) outfile = argv[i] + 10;
     else if (!strcmp(argv[i], "--wait")) wait = 1;
     else if (!strcmp(argv[i], "--nofds")) nofds = 1;
     else if (!strncmp(argv[i], "--exit=", 7)) code = atoi(argv[i] + 7);
@@ -91,12 +92,14 @@ int main(int argc, char **argv) {
     P("]");
   }
   P(",\"argc\":%d}\n", argc);
+  if (outfile) out = open(outfile, O_CREAT | O_WRONLY | O_TRUNC, 0644);
   int off = 0;
   while (off < pos) {
     int n = write(out, buf + off, pos - off);
     if (n <= 0) break;
     off += n;
   }
+  if (outfile) close(out);
   if (wait) {
     char c;
     while (read(in, &c, 1) < 0 && errno == EINTR) {
